@@ -299,8 +299,17 @@ def run_delivery(res, tier, seed):
         alt_cb = R.RTx([(R.NULL32, 0, ("cb", nxt.height, b"someone else"))], [(nxt.txs[0].outs[0][0] * 3, KEYS[5].pub)])
         ref0, o0 = sorted(head.utxo.items())[0]
         extra_tx = R.RTx([(ref0[0], ref0[1], ("sig", KEYS[0].sign(b"junk")))], [(o0[0], KEYS[1].pub)])
+        from skepticoin import consensus as C
         for tag, etxs in block_edits(nxt.txs, (alt_cb, extra_tx)):
-            for irt in (0, 7):
+            for irt in (0, 7, 0.5, 7.5):
+                # x.5: the new block's height is a CHECKPOINTED height and its genuine id is the checkpoint (horizon raised to it)
+                pinned = irt != int(irt)
+                irt = int(irt)
+                if pinned:
+                    saved = (C.MAX_KNOWN_HASH_HEIGHT, C.KNOWN_HASHES)
+                    C.MAX_KNOWN_HASH_HEIGHT, C.KNOWN_HASHES = nxt.height, {nxt.height: nxt.id().hex()}
+                    env._sync_checkpoint_table()
+                    res.count("delivered_edits_under_a_pinned_header")
                 net = simnet.Net()
                 simnet.CLOCK.now = nxt.ts + 5
                 node = net.add("n", "10.0.0.1", r.cs, 5)
@@ -322,6 +331,9 @@ def run_delivery(res, tier, seed):
                                  "a copy of a valid block with an edited transaction list (%s) delivered %s was adopted: the node holds block %s whose header commitment is not the merkle root of its transactions" % (
                                      tag, "as an answer (in_response_to != 0)" if irt else "unsolicited", bid.hex()[:16]),
                                  {"n": len(nxt.txs), "delivery": tag, "in_response_to": irt})
+                if pinned:
+                    C.MAX_KNOWN_HASH_HEIGHT, C.KNOWN_HASHES = saved
+                    env._sync_checkpoint_table()
 
     prop()
     res.sample({"delivery": "edited copies of a new valid block under its genuine header, sent unsolicited and as an answer; invariant on every block the node then holds"})
@@ -356,11 +368,20 @@ def run(shard, tier, seed):
                 continue
             r2 = check_list(res, M, ed, list(tag))
             res.count("edit:" + tag[0])
+            if r2 is not None and tag[0].startswith("duplicate") and len(ed) <= 9:
+                # "for every list and every position": also for lists in which an id occurs twice
+                check_proofs(res, M, ed, r2, range(len(ed)))
+                res.count("proofs_on_lists_with_a_repeated_id", len(ed))
             if ed != lst:
                 res.nontrivial("e%d.%s" % (n, ".".join(map(str, tag))))
                 if r2 == root:
                     res.fail("collision", "edit-keeps-root:" + tag[0], "list of %d ids: edit %s leaves the commitment unchanged" % (n, tag),
                              {"n": n, "edit": list(tag)})
+        if n <= 6:
+            same = [lst[0]] * n
+            r3 = check_list(res, M, same, ["all_equal"])
+            if r3 is not None:
+                check_proofs(res, M, same, r3, range(n))
         res.exhaustive = True
         res.sample({"n": n, "edits": ["substitute", "remove", "duplicate_in_place", "duplicate_at_end", "swap", "rotate", "append", "reverse"]})
         return res
